@@ -223,6 +223,22 @@ func runC06(res *lp.Result) {
 			}
 		}
 	}
+	// payloads whose LZ4 block is EXACTLY as long as the payload (the boundary between "sent compressed" and "sent as it is"):
+	// found by search over short texts with one repetition and a tail of distinct bytes
+	{
+		found := 0
+		distinct := []byte("uvwxyzABCDEFGHIJKLMNOPQRSTabcdefghijklmnopqrst456789")
+		for rep := 2; rep <= 8 && found < 6; rep++ {
+			for tail := 0; tail <= len(distinct) && found < 6; tail++ {
+				p := append(bytes.Repeat([]byte("0123"), rep), distinct[:tail]...)
+				if c, err := lz4Raw(p); err == nil && len(c) == len(p) {
+					found++
+					res.Count("lz4-block-as-long-as-the-payload")
+					check("lz4", found%2 == 0, p, true)
+				}
+			}
+		}
+	}
 	for _, n := range []int{131072, 131073, 200000} {
 		check("none", true, make([]byte, n), n == 131072)
 		check("lz4", false, make([]byte, n), false)
@@ -303,6 +319,7 @@ func runC07(res *lp.Result) {
 		followers[cname] = append([]byte{}, b.Bytes()...)
 	}
 	tries := 0
+	var pristineOf []byte // the intact encoding the current corrupted segments are derived from
 	try := func(cname string, corrupted []byte, what string) {
 		res.Case(cname+"/"+what, true)
 		tries++
@@ -310,6 +327,12 @@ func runC07(res *lp.Result) {
 		if tries%2 == 0 {
 			in = append(append([]byte{}, corrupted...), followers[cname]...)
 			what += ", followed by a pristine segment"
+		}
+		if tries%3 == 0 && pristineOf != nil {
+			// … and every third one is preceded, on the same codec, by the decode of the INTACT segment it was made from (what the
+			// codec has just seen must not make it trust the altered copy)
+			codecs[cname].DecodeSegment(bytes.NewReader(pristineOf))
+			what += ", after the intact segment was decoded by the same codec"
 		}
 		s, err := codecs[cname].DecodeSegment(bytes.NewReader(in))
 		if err == nil {
@@ -335,6 +358,7 @@ func runC07(res *lp.Result) {
 				continue
 			}
 			enc := buf.Bytes()
+			pristineOf = append([]byte{}, enc...)
 			// header: weight 1..3 exhaustive (first two payloads), weight 4..7 sampled
 			if pi < 2 || thorough() {
 				for a := 0; a < hbits; a++ {
@@ -789,6 +813,37 @@ func runC08(res *lp.Result) {
 				res.Add(lp.Finding{Kind: "violation", What: fmt.Sprintf("payload returned for segment %d of a sequence is changed by decoding the following segments with the same codec (%s)", i, cname),
 					Input: "segments " + hx(stream.Bytes()), Impl: hx(got[i][:minInt(len(got[i]), 64)]), Model: hx(ps[i][:minInt(len(ps[i]), 64)])})
 				break
+			}
+		}
+	}
+	// compressed frames with TINY bodies (0 … 6 bytes before compression): the compressed form of an empty body is one byte with Snappy,
+	// five with LZ4
+	for _, v := range gen.Versions {
+		for _, cs := range compSettings() {
+			if cs.comp == nil || (cs.name == "snappy" && v == primitive.ProtocolVersion5) {
+				continue
+			}
+			for k, m := range []message.Message{&message.Options{}, &message.Ready{}, &message.Supported{Options: map[string][]string{}}, &message.VoidResult{},
+				&message.AuthSuccess{}, &message.SetKeyspaceResult{Keyspace: "k"}, &message.AuthChallenge{Token: []byte{1}}} {
+				f := frame.NewFrame(v, int16(k+1), m)
+				f.Header.Flags = f.Header.Flags.Add(primitive.HeaderFlagCompressed)
+				id := fmt.Sprintf("compressed %T frame with a tiny body v=%d comp=%s", m, v, cs.name)
+				res.Case(id, true)
+				res.Count("tiny-compressed-bodies")
+				want := show.Frame(show.Normalize(f.DeepCopy()))
+				var b bytes.Buffer
+				if err := cs.codec.EncodeFrame(f, &b); err != nil {
+					res.Add(lp.Finding{Kind: "violation", What: "a frame with a tiny body is refused by the encoder when compression is on: " + firstWords(err.Error()), Input: id})
+					continue
+				}
+				d, err := cs.codec.DecodeFrame(bytes.NewReader(b.Bytes()))
+				if err != nil {
+					res.Add(lp.Finding{Kind: "violation", What: "a compressed frame with a tiny body does not decode: " + firstWords(err.Error()), Input: id + " bytes=" + hx(b.Bytes())})
+					continue
+				}
+				if got := show.Frame(show.Normalize(d)); got != want {
+					res.Add(lp.Finding{Kind: "violation", What: "a compressed frame with a tiny body decodes to other content", Input: id + " bytes=" + hx(b.Bytes()), Impl: trunc(got), Model: trunc(want)})
+				}
 			}
 		}
 	}
